@@ -19,7 +19,7 @@ func init() {
 				Modes: []int{0, 1}, Segs: []int64{64, 96, 100, 128, 144, 192, 256, 512},
 				MinTx: 4, MaxTx: 30, MaxOps: 4, Buckets: 4,
 				TTL: r.Bool(0.7), Timestamps: r.Bool(0.5), Deletes: r.Bool(0.8), Advance: r.Bool(0.8),
-				Views: true, EmptyKey: r.Bool(0.3), NoLimitOnly: true, PSearch: true, ManyKeys: 0.3,
+				Views: true, EmptyKey: r.Bool(0.3), NoLimitOnly: true, PSearch: true, ManyKeys: 0.3, Backward: r.Bool(0.3),
 			}
 			if tier == "thorough" {
 				p.MaxTx = 60
@@ -32,6 +32,6 @@ func init() {
 			return res
 		},
 		Classes: classes("op", "observe"),
-		Assume:  []string{"timestamps within +-61 s of the simulated now (timestamp+ttl never overflows)", "the simulated clock does not step backwards"},
+		Assume:  []string{"timestamps within +-61 s of the simulated now (timestamp+ttl never overflows)", "the clock also steps backwards in a third of the runs (wall-clock adjustments); C01 has no failed transactions, so transaction-id reuse after a backward step cannot matter here"},
 	})
 }
